@@ -436,6 +436,12 @@ def ins_job(draw, resume_cycles=(0, 0), nlive=(100, 500),
         kw["flow_config"]["distribution"] = {"__dist__": draw(
             st.sampled_from(["learnable-instance", "learnable-class"]))}
         labels.append("base-dist:learnable-object")
+    elif kw["flow_config"]["ftype"] != "maf" and \
+            draw(st.integers(0, 5)) == 0:
+        # base distribution whose normalisation is re-estimated when a
+        # training is finalised
+        kw["flow_config"]["distribution"] = "lars"
+        labels.append("base-dist:lars")
     kw["training_config"] = {
         "max_epochs": draw(st.integers(100, 200)),
         "patience": draw(st.sampled_from([10, 20])),
